@@ -11,6 +11,7 @@ import (
 	"path/filepath"
 	"strings"
 	"sync"
+	"sync/atomic"
 	"time"
 )
 
@@ -210,16 +211,30 @@ func sanitizeFile(s string) string {
 	return s
 }
 
+// failfastIgnore: obligations whose failure does not stop a fail-fast run (the recorded known findings)
+var failfastIgnore = map[string]bool{}
+
 func dischargeAll(u *Universe, obls []*Obligation, dir string, timeoutS int, confirm bool, workers int) {
 	os.MkdirAll(dir, 0o755)
 	var wg sync.WaitGroup
 	ch := make(chan *Obligation)
+	// GOCV_FAILFAST (seeded-change runs only, never the registered checks): once an obligation has failed the remaining ones
+	// are not run; they are reported as "skipped", which the summary counts as not discharged
+	failfast := os.Getenv("GOCV_FAILFAST") != ""
+	var failed int32
 	for i := 0; i < workers; i++ {
 		wg.Add(1)
 		go func() {
 			defer wg.Done()
 			for o := range ch {
+				if failfast && atomic.LoadInt32(&failed) != 0 && o.Result == "" {
+					o.Result, o.Solver = "skipped", "none"
+					continue
+				}
 				discharge(u, o, dir, timeoutS, confirm)
+				if failfast && o.Result != "unsat" && !o.Cover && !failfastIgnore[o.Name] {
+					atomic.StoreInt32(&failed, 1)
+				}
 			}
 		}()
 	}
